@@ -40,10 +40,15 @@ pub struct SState {
     pub alias: HashMap<String, Alias>,
     /// the method returns a `Result`
     pub is_result: bool,
+    /// type parameters of the impl that stand for the sink (`W: Write + Seek`): `Unit`, the device is implicit
+    pub sink_tys: HashSet<String>,
 }
 
 /// Lean types of the external types that occur in the fields of a state structure.
 pub fn s_ty(tr: &Tr, name: &str, args: &[&Type]) -> Option<R<String>> {
+    if tr.s.sink_tys.contains(name) {
+        return Some(Ok("Unit".into()));
+    }
     match name {
         "GenericZipWriter" => Some(Ok("Rs.S.Inner".into())),
         "Hasher" => Some(Ok("Rs.Hasher".into())),
@@ -53,6 +58,42 @@ pub fn s_ty(tr: &Tr, name: &str, args: &[&Type]) -> Option<R<String>> {
         },
         _ => None,
     }
+}
+
+fn sink_params(g: &Generics) -> HashSet<String> {
+    let mut out = HashSet::new();
+    for p in &g.params {
+        if let GenericParam::Type(tp) = p {
+            let io = tp.bounds.iter().any(|b| matches!(b, TypeParamBound::Trait(tb) if matches!(path_last(&tb.path).as_str(), "Write" | "Read" | "Seek")));
+            if io {
+                out.insert(tp.ident.to_string());
+            }
+        }
+    }
+    out
+}
+
+fn find_sfn_impl<'a>(all: &[&'a Item], ty: &str, m: &str) -> Option<&'a ItemImpl> {
+    for it in all {
+        if let Item::Impl(im) = it {
+            if !cfg_on(&im.attrs) {
+                continue;
+            }
+            if let Type::Path(p) = &*im.self_ty {
+                if path_last(&p.path) != ty {
+                    continue;
+                }
+                for ii in &im.items {
+                    if let ImplItem::Fn(f) = ii {
+                        if f.sig.ident == m && cfg_on(&f.attrs) {
+                            return Some(im);
+                        }
+                    }
+                }
+            }
+        }
+    }
+    None
 }
 
 fn find_sfn<'a>(all: &[&'a Item], ty: &str, m: &str) -> Option<&'a ImplItemFn> {
@@ -138,13 +179,17 @@ pub fn sfn_info(reg: &Registry, all: &[&Item], name: &str) -> Option<MethodInfo>
     let no_failed: HashSet<String> = HashSet::new();
     let mut tr = Tr::new(reg, &no_failed, Some(ty.to_string()), 0);
     tr.mode = Mode::S;
-    let (ret, _) = s_ret(&tr, &f.sig).ok()?;
+    if let Some(im) = find_sfn_impl(all, ty, m) {
+        tr.s.sink_tys = sink_params(&im.generics);
+    }
+    let (ret, is_result) = s_ret(&tr, &f.sig).ok()?;
     let recv = f.sig.inputs.iter().find_map(|a| if let FnArg::Receiver(r) = a { Some(r) } else { None });
     Some(MethodInfo {
         has_self: recv.is_some(),
         mut_self: true,
         unit_ret: matches!(f.sig.output, ReturnType::Default),
-        fi: FnInfo { mode: Mode::S, writer_idx: None, seek: false, ret: Some(ret) },
+        // S mode: `seek` records whether the method returns a `Result`
+        fi: FnInfo { mode: Mode::S, writer_idx: None, seek: is_result, ret: Some(ret) },
     })
 }
 
@@ -154,6 +199,9 @@ pub fn translate_sfn(reg: &Registry, failed: &HashSet<String>, all: &[&Item], na
     let mut tr = Tr::new(reg, failed, Some(ty.to_string()), 1);
     tr.mode = Mode::S;
     tr.pstate = Some("self".into());
+    if let Some(im) = find_sfn_impl(all, ty, m) {
+        tr.s.sink_tys = sink_params(&im.generics);
+    }
     let (ret, is_result) = s_ret(&tr, &f.sig)?;
     tr.s.is_result = is_result;
     tr.ret_ty = Some(ret.clone());
@@ -209,6 +257,16 @@ pub fn translate_sfn(reg: &Registry, failed: &HashSet<String>, all: &[&Item], na
     }
     let h = tokens_hash(&quote::quote!(#f));
     Ok((s, h, f.span().start().line, f.span().end().line))
+}
+
+/// any `return` (the `?` operator is not a `return` expression)
+struct HasReturn {
+    found: bool,
+}
+impl<'ast> syn::visit::Visit<'ast> for HasReturn {
+    fn visit_expr_return(&mut self, _: &'ast ExprReturn) {
+        self.found = true;
+    }
 }
 
 /// `a.b.c` as a list of segments when the expression is a chain of named fields over a variable
@@ -406,7 +464,10 @@ impl<'a> Tr<'a> {
                 }
                 // a translated S-mode method of `self` / of a part of `self`
                 if let Some((_, mi)) = self.s_method(&m.receiver, &name) {
-                    return mi.fi.ret.clone();
+                    return if mi.fi.seek { mi.fi.ret.clone().map(|t| format!("(Except ZErr {t})")) } else { mi.fi.ret.clone() };
+                }
+                if name == "unwrap" && m.args.is_empty() && self.type_of(&m.receiver).as_deref() == Some("Rs.S.Inner") {
+                    return Some("Unit".into());
                 }
                 None
             }
@@ -575,6 +636,11 @@ impl<'a> Tr<'a> {
             }
         }
         match name.as_str() {
+            // inner.unwrap(): the bare sink
+            "unwrap" if m.args.is_empty() && self.type_of(&m.receiver).as_deref() == Some("Rs.S.Inner") => {
+                let v = self.expr(&m.receiver)?;
+                return Ok(Some(self.bind_m(format!("Rs.S.unwrap_sink {v}"))));
+            }
             // X.last_mut().unwrap()
             "unwrap" if m.args.is_empty() => {
                 if let Some((v, _)) = self.s_last_of(&m.receiver)? {
@@ -629,8 +695,20 @@ impl<'a> Tr<'a> {
             if self.failed.contains(&format!("{st}::{name}")) {
                 return Err(format!("calls the untranslated {st}::{name}"));
             }
+            if mi.fi.seek {
+                // a `Result` method without `?`: the `Result` as a value, `self` as the callee left it
+                let chain = field_chain(&m.receiver).ok_or("method receiver")?;
+                if chain.len() != 1 || chain[0] != "self" {
+                    return Err("Result method of a part of `self` without `?`".into());
+                }
+                let a = self.s_args(&m.args)?;
+                let t1 = self.fresh();
+                let t2 = self.fresh();
+                self.emit(format!("let ({t1}, {t2}) ← Rs.S.attempt (Gen.{st}.{name} ext self{a})"));
+                self.emit(format!("self := {t2}"));
+                return Ok(Some(t1));
+            }
             let r = self.s_call_method(&m.receiver, &st, &name, &m.args)?;
-            let _ = mi;
             return Ok(Some(r));
         }
         Ok(None)
@@ -783,7 +861,8 @@ impl<'a> Tr<'a> {
                 }
             }
             // a translated W-mode method of a record, called with the bare sink: `footer.write(writer)?`
-            if let Some((ty, info)) = self.method_owner(&m.receiver, &name) {
+            let by_type = self.type_of(&m.receiver).and_then(|t| t.strip_prefix("Gen.").map(|x| x.to_string())).and_then(|st| self.reg.methods.get(&format!("{st}::{name}")).map(|mi| (st, mi.clone())));
+            if let Some((ty, info)) = by_type.or_else(|| self.method_owner(&m.receiver, &name)) {
                 if info.fi.mode == Mode::W {
                     if self.failed.contains(&format!("{ty}::{name}")) {
                         return Err(format!("calls the untranslated {ty}::{name}"));
@@ -801,7 +880,11 @@ impl<'a> Tr<'a> {
                     }
                     let a = if args.is_empty() { String::new() } else { format!(" {}", args.join(" ")) };
                     let t = self.fresh();
-                    self.emit(format!("let {t} ← Rs.S.runW (Gen.{ty}.{name} (ω := Rs.Act) {recv}{a}) self"));
+                    if info.fi.seek {
+                        self.emit(format!("let {t} ← Rs.S.runW (Gen.{ty}.{name} (ω := Rs.Act) {recv}{a}) self"));
+                    } else {
+                        self.emit(format!("let {t} ← Rs.S.runWB (Gen.{ty}.{name} (ω := Bytes) {recv}{a}) self"));
+                    }
                     return Ok(t);
                 }
             }
@@ -828,7 +911,11 @@ impl<'a> Tr<'a> {
                             }
                             let a = if args.is_empty() { String::new() } else { format!(" {}", args.join(" ")) };
                             let t = self.fresh();
-                            self.emit(format!("let {t} ← Rs.S.runW (Gen.{name} (ω := Rs.Act){a}) self"));
+                            if fi.seek {
+                                self.emit(format!("let {t} ← Rs.S.runW (Gen.{name} (ω := Rs.Act){a}) self"));
+                            } else {
+                                self.emit(format!("let {t} ← Rs.S.runWB (Gen.{name} (ω := Bytes){a}) self"));
+                            }
                             return Ok(t);
                         }
                     }
@@ -849,6 +936,18 @@ impl<'a> Tr<'a> {
     /// Hook of `Tr::stmt` in S mode: `true` when the statement was translated here.
     pub fn s_stmt(&mut self, s: &Stmt) -> R<bool> {
         match s {
+            Stmt::Local(l) if cfg_on(&l.attrs) && matches!(&l.pat, Pat::Wild(_)) => {
+                // `let _ = write!(io::stderr(), ..)`: the process's stderr is not part of the model
+                if let Some(init) = &l.init {
+                    if let Expr::Macro(m) = &*init.expr {
+                        let toks = m.mac.tokens.to_string().replace(' ', "");
+                        if macro_name(&m.mac) == "write" && toks.starts_with("io::stderr(),") {
+                            return Ok(true);
+                        }
+                    }
+                }
+                Ok(false)
+            }
             Stmt::Local(l) if cfg_on(&l.attrs) => {
                 let (name, _mutable) = match &l.pat {
                     Pat::Ident(id) => (id.ident.to_string(), id.mutability.is_some()),
@@ -1006,6 +1105,44 @@ impl<'a> Tr<'a> {
             }
             Expr::Macro(m) if matches!(macro_name(&m.mac).as_str(), "unreachable" | "panic") => {
                 self.emit("Rs.S.panic self".into());
+                Ok(true)
+            }
+            // for x in VEC.iter() { body }: the body changes no variable of the function and leaves only by `?`
+            Expr::ForLoop(f) => {
+                let var = match &*f.pat {
+                    Pat::Ident(id) => id.ident.to_string(),
+                    _ => return Err("for pattern".into()),
+                };
+                let vec_e: &Expr = match &*f.expr {
+                    Expr::MethodCall(mc) if mc.method == "iter" && mc.args.is_empty() => &mc.receiver,
+                    _ => return Err("for loop over something other than `vec.iter()`".into()),
+                };
+                let elem = self.type_of(vec_e).and_then(|t| t.strip_prefix("(List ").and_then(|x| x.strip_suffix(')')).map(|x| x.to_string())).ok_or("for loop over something that is not a vector")?;
+                let mut esc = Escapes { reg: self.reg, found: false };
+                syn::visit::Visit::visit_block(&mut esc, &f.body);
+                let mut av = AssignedVars { reg: self.reg, out: vec![], declared: vec![] };
+                syn::visit::Visit::visit_block(&mut av, &f.body);
+                let mut ret = HasReturn { found: false };
+                syn::visit::Visit::visit_block(&mut ret, &f.body);
+                if esc.found || ret.found || av.out.iter().any(|v| !av.declared.contains(v)) {
+                    return Err("for loop whose body assigns an outer variable, breaks or returns".into());
+                }
+                let xs = self.expr(vec_e)?;
+                self.emit(format!("Rs.S.forEach {xs} (fun {var} => do"));
+                let v2 = var.clone();
+                self.indent += 1;
+                let r = self.s_branch(|s| {
+                    s.vars.insert(v2.clone(), elem.clone());
+                    s.mut_vars.remove(&v2);
+                    s.s.alias.remove(&v2);
+                    s.stmts(&f.body.stmts)?;
+                    s.emit("pure ()".into());
+                    Ok(())
+                });
+                self.indent -= 1;
+                r?;
+                let last = self.lines.pop().unwrap();
+                self.lines.push(format!("{last})"));
                 Ok(true)
             }
             // if let PAT = E { A } else { B }   (statement level)
